@@ -163,3 +163,17 @@ class ChainModel:
                         break
         self._sync_mut = mut
         return mut
+
+
+    def sites(self, f, skip=('flush_data',)):
+        """Mutation sites in f: direct mutations plus calls (also through local aliases) of sync mutators."""
+        mut = self.sync_mutators()
+        out = list(self.mutations(f))
+        for c in q.own_calls(f):
+            tgt = self.ctx.res.resolve_ref(c.func, f)
+            if tgt is None and isinstance(c.func, ast.Name):
+                al = self.ctx.res.aliases(f).get(c.func.id)
+                tgt = self.ctx.res.resolve_ref(al, f) if al is not None else None
+            if tgt is not None and tgt.key in mut and tgt.name not in skip:
+                out.append((c, f'call of {tgt.qual}'))
+        return out
